@@ -9,4 +9,5 @@ git -C $wt apply -3 --whitespace=nowarn "$patch" || { echo "patch does not apply
 cd /verif && VERIF_EVIDENCE_DIR=/tmp/seed_evidence VERIF_REPO=$wt VERIF_JOBS=${VERIF_JOBS:-8} ./check $prop --tier $tier 2>&1 | grep -v '^WARNING conda' | tail -6
 rc=${PIPESTATUS[0]}
 git -C /repo worktree remove --force $wt
+/verif/regen_gen.sh
 echo "seeded_test exit=$rc"
